@@ -499,9 +499,9 @@ Lemma pres_idle_enter s m s' :
 Proof.
   intros IV S H. unfold do_idle_enter in H.
   destruct (st_phase s) eqn:P; try discriminate.
-  destruct (existsb _ _ && forallb _ _) eqn:G; [|discriminate].
+  destruct (existsb _ _) eqn:G1; [|discriminate].
   inversion H; subst s'; clear H.
-  apply andb_true_iff in G as [G1 G2]. apply existsb_exists in G1 as [w0 [W0 W1]]. apply andb_true_iff in W1 as [W1 W2].
+  apply existsb_exists in G1 as [w0 [W0 W1]]. apply andb_true_iff in W1 as [W1 W2].
   simpl. rewrite (round_none_phase s m S P). eexists; split; [reflexivity|].
   split.
   - destruct IV. constructor; try solve [auto_inv].
